@@ -487,9 +487,23 @@ theorem failMultipartProg_serves (a : AppId) (k : Prog) (hk : k.Serves a) :
   refine Prog.Serves.step _ _ trivial fun _ => ?_
   exact reqBodyObj_serves a .request rfl _ _ fun _ => hk
 
-theorem outcome_serves (a : AppId) (o : Outcome) (k : Out → Prog) (hk : ∀ x, (k x).Serves a) :
+theorem redirectProg_serves (loc line : String) (k : Out → Prog) (hk : ∀ x, (k x).Serves defaultApp) :
+    (redirectProg loc line k).Serves defaultApp := by
+  unfold redirectProg
+  apply envGet_serves defaultApp .request rfl; intro _
+  refine Prog.Serves.step _ _ resp_attrs.1 fun _ => ?_
+  refine Prog.Serves.step _ _ trivial fun _ => ?_
+  refine Prog.Serves.step _ _ trivial fun _ => ?_
+  refine Prog.Serves.step _ _ resp_attrs.2.2.2.1 fun _ => ?_
+  exact reqUrl_serves defaultApp .request rfl _ _ fun _ => hk _
+
+theorem outcome_serves (a : AppId) (o : Outcome) (ho : o.LocalTo a) (k : Out → Prog) (hk : ∀ x, (k x).Serves a) :
     (outcome a o k).Serves a := by
   cases o with
+  | redirect loc line =>
+    simp only [Outcome.LocalTo] at ho
+    subst ho
+    simp only [outcome]; exact redirectProg_serves loc line k hk
   | failJson e => simp only [outcome]; exact failJsonProg_serves a _ (hk _)
   | failForm e => simp only [outcome]; exact failFormProg_serves a _ (hk _)
   | failMultipart e => simp only [outcome]; exact failMultipartProg_serves a _ (hk _)
@@ -556,6 +570,6 @@ theorem serve_serves (fuel : Nat) (a : AppId) (r : Req) (hl : r.LocalTo a) (k : 
         refine Prog.Serves.step _ _ trivial fun _ => ?_
         refine Prog.Serves.step _ _ trivial fun _ => ?_
         simp only [Req.LocalTo] at hl
-        exact hops_serves _ b ops hl.2.2.2 [] _ (outcome_serves b out _ hleave)
+        exact hops_serves _ b ops hl.2.2.2.1 [] _ (outcome_serves b out hl.2.2.2.2 _ hleave)
 
 end Ombott.WsgiConc
